@@ -477,6 +477,19 @@ where
                 self.metrics.send_packets_sent.inc();
                 Ok(())
             }
+            // The packet's content was chosen by another client.  A packet that cannot be
+            // forwarded (empty, or too large once re-framed for this client) is dropped:
+            // it must never terminate this client's connection.  Nothing was written to
+            // the stream, the checks run before any byte is sent.
+            Err(WriteFrameError::Stream {
+                source:
+                    RelaySendError::ExceedsMaxPacketSize { .. } | RelaySendError::EmptyPacket { .. },
+                ..
+            }) => {
+                debug!("dropping packet that can not be forwarded");
+                self.metrics.send_packets_dropped.inc();
+                Ok(())
+            }
             Err(err) => {
                 self.metrics.send_packets_dropped.inc();
                 Err(err)
